@@ -1,5 +1,5 @@
 """Shard lists of the SIMH grid harness per property (which profile, which bounds, which oracle prefixes)."""
-from harness.h_sim import G, R_TWO, R_THREE, META, FUNCTIONS
+from harness.h_sim import G, R_TWO, R_THREE, R_ONE, META, FUNCTIONS
 
 PIN = {}
 ALG3 = ('queue', 'batch1', 'batch2')
@@ -24,6 +24,12 @@ def timing_family(props, tier, three_shapes=('chain', 'join', 'relabel', 'free')
     # three observations that may all fall due together on a two-machine cluster (ingest limit above the cluster size)
     out.append(G('three', [(0, 1), (0, 1), (1, 2), (1, 2), (1, 2), (0, 2), (1, 1), (0, 1)], props, alg='queue', shape='revjoin', machines=[10, 20], max_ingest=3))
     out.append(G('three', [(0, 1), (0, 1), (1, 2), (1, 2), (1, 2), (0, 2), (1, 1), (0, 1)], props, alg='batch2', shape='revchain', machines=[10, 20, 10], max_ingest=3, ingest=[1, 1, 2]))
+    # workflows that finish out of queue order (a long one queued before a short one)
+    out.append(G('singles', R_SINGLES, props, alg='queue'))
+    out.append(G('singles', R_SINGLES, props, alg='batch3'))
+    # a single observation: the run ends with its workflow (last tasks finishing together on every reserved machine)
+    for alg in ('batch1', 'queue'):
+        out.append(G('one', R_ONE, props, alg=alg))
     if tier != 'quick':
         for alg in ALG3:
             for sh in ('chain', 'fork', 'join', 'free', 'tri'):
@@ -45,8 +51,9 @@ def shards(tier, prop):
             out.append(G('two', [(0, 2), (2, 3), (3, 4), (0, 2), (0, 2), (1, 1), (2, 2), (5, 5)], props, alg='batch0split', machines=[10, 20]))
         if prop == 'C02':
             out += [G('two', R_TWO, props, alg=a) for a in ('reserve1', 'reserve2')]
-            out.append(G('singles', R_SINGLES, props, alg='batch3'))
         if prop == 'C03':
+            # one predecessor feeding two successors over edges of different volume
+            out += [G('three', R_THREE, props, alg=a, shape=sh) for a in ('queue', 'batch2') for sh in ('fork2', 'tri')]
             # edge volumes that are not whole multiples of the bandwidth (fractional transfer times)
             out += [G('two', [(0, 2), (1, 2), (1, 2), (0, 2), (0, 2), (1, 2), (2, 2), (6, 8)], props, alg=a, machines=[10, 20]) for a in ('queue', 'batch2')]
         out.append(G('delay', [(0, 2), (1, 2), (1, 2), (0, 2), (0, 2), (0, 2), (0, 2), (0, 1)], props, alg='batch1'))
@@ -79,12 +86,13 @@ def shards(tier, prop):
             out.append(G('two', R_TWO, props, alg=alg))
             out.append(G('three', R_THREE, props, alg=alg, shape='join'))
             out.append(G('three', R_THREE, props, alg=alg, shape='free', machines=[10, 20, 10, 10], ingest=[2, 1, 1]))
+        out.append(G('one', R_ONE, props, alg='batch1'))
+        out.append(G('two', R_TWO, props, alg='batchsplit'))
     elif prop == 'C04':
         out = timing_family(props, tier)
         # a user algorithm that reserves machines and leaves the release to the Scheduler
         out += [G('two', R_TWO, props, alg=a) for a in ('reserve1', 'reserve2')]
         out.append(G('three', R_THREE, props, alg='reserve2', shape='join'))
-        out.append(G('singles', R_SINGLES, props, alg='batch3'))
         out.append(G('delay', [(0, 2), (1, 2), (1, 2), (0, 2), (0, 2), (0, 2), (0, 2), (0, 1)], props, alg='queue'))
         for honest in (True, False):
             out.append(G('adv', [(0, 1), (1, 1), (0, 2), (-1, 2), (-1, 2), (-1, 2), (0, 2), (0, 0)], props, honest=honest))
@@ -106,6 +114,9 @@ def shards(tier, prop):
             out.append(G('two', [(0, 2), (1, 2), (1, 2), (0, 2), (0, 2), (1, 2), (1, 2), (5, 5)], props, alg=alg, machines=[10, 20], g1=2))
             out.append(G('three', R_THREE, props, alg=alg, shape='join', machines=[10, 20], max_ingest=1))
             out.append(G('three', R_THREE, props, alg=alg, shape='chain', max_ingest=2, ingest=[2, 1, 2]))
+        # per-observation (min, max) reservation sizes whose minimum may exceed what is free at that moment
+        out.append(G('three', R_THREE, props, alg='batchsplit', shape='free'))
+        out.append(G('two', R_TWO, props, alg='batchsplit'))
     if prop in ('C04', 'C11', 'C12', 'C13'):
         out.append({'kind': 'py', 'module': 'vk.simh', 'fn': 'validate_fakepd', 'cond_timeout': 120, 'name': 'stub-validation:pandas'})
     out.append(twin([o for o in out if o.get('fn') == 'grid'][0]))
